@@ -554,6 +554,22 @@ class ExprMixin:
                     return [(st, st.heap[v.oid][attr])]
             raise Refuse(f"attribute {attr!r} of {v!r} not modelled (line {getattr(node, 'lineno', '?')}, {self.cur_key})")
         if isinstance(v, VOpaque):
+            typed = getattr(self, 'class_typed_attrs', None)
+            if typed and attr in typed and not self.method_position.get(id(node)):
+                # opt-in: an attribute that only certain classes of the repository define exists on v iff v is an instance of one of
+                # them (the isinstance facts of the path decide); otherwise the read raises AttributeError
+                owners = [c for c, (_, cn) in self.src.classes.items()
+                          if any(isinstance(t, ast.Attribute) and t.attr == attr and isinstance(t.value, ast.Name) and t.value.id == 'self'
+                                 and isinstance(t.ctx, ast.Store) for t in ast.walk(cn))]
+                if owners:
+                    cond = z3.Or(*[v.pred('isinst:' + c).t for c in owners])
+                    outs = []
+                    for s2, has in self.branch(st, cond, f"hasattr-{attr}@{getattr(node, 'lineno', '?')}"):
+                        if has:
+                            outs.append((s2, VOpaque(z3.Function('attr:' + attr, Obj, Obj)(v.t))))
+                        else:
+                            outs.append(self.exc(s2, 'AttributeError', node))
+                    return outs
             if attr in self.stable_opaque_attrs and not self.method_position.get(id(node)):
                 # attribute of an object that the function under contract never writes: a function of the object
                 return [(st, VOpaque(z3.Function('attr:' + attr, Obj, Obj)(v.t)))]
